@@ -482,7 +482,11 @@ def run(ctx):
         ctx.count("C18.W2 element-wise constructs classified on both sides" + tag, n2b)
 
         # ---- W3
-        tv = prog.fn(M + "tracker_visit_expr")
+        # the visitor is read through a wrapper it may have been put behind (`tracker_visit_expr` -> `.._impl`): a private
+        # function with a single call site is spliced into that site, whatever its size
+        from .. import inline as _inl
+        single = {k for k, v in prog.callers().items() if len({(c.fn.path, c.bb) for c in v}) == 1}
+        tv = _inl.view(prog, prog.fn(M + "tracker_visit_expr"), keep=lambda t: t not in single or not t.startswith(M), max_blocks=2000)
         sw = arms.enum_switches(prog, tv, AST + "Expr")
         ctx.need(sw, "C18.W3: tracker_visit_expr has no switch on Expr")
         regs = arms.arm_regions(prog, tv, sw[0][0], AST + "Expr")
